@@ -43,8 +43,11 @@ def cases(tier, seed):
                     continue
                 out.append({"kind": "perm", "cls": f"perm:m{m}", "m": m, "n": n, "pi": list(pi), "seed": seed})
     idx = 0
+    for r_ in range(40 if tier == "quick" else 300):
+        out.append({"kind": "random", "cls": "random:column_just_above_zero_threshold", "entry": "column_just_above_zero_threshold", "idx": 9 * 10 ** 5 + r_, "seed": seed,
+                    "maxd": 6})
     for cls in ("gauss", "diag_dominant", "ties", "int", "scaled_small", "scaled_big", "pure_imag", "sparse_pattern", "layout",
-                "herm_gram", "herm_indef_posdiag", "herm_generic", "herm_near_singular_leading_block", "real_symmetric", "hollow", "herm_hollow", "near_tie_pivot", "lower_tri_interchanges", "lower_banded_interchanges"):
+                "herm_gram", "herm_indef_posdiag", "herm_generic", "herm_near_singular_leading_block", "real_symmetric", "hollow", "herm_hollow", "near_tie_pivot", "lower_tri_interchanges", "lower_banded_interchanges", "column_just_above_zero_threshold"):
         for rep in range(6 if tier == "quick" else 120):
             out.append({"kind": "random", "cls": "random:" + cls, "entry": cls, "idx": idx, "seed": seed,
                         "maxd": 8 if tier == "quick" else 20})
@@ -318,7 +321,7 @@ def _random(spec, ctx, R):
         A = gen.entries(rng, "sparse", m, n) + refq.diagq(1.0 + rng.random(min(m, n)), m, n)
     elif cls == "layout":
         A = gen.layout(refq.randq(rng, m, n), str(rng.choice(gen.LAYOUTS)))
-    elif cls in ("herm_gram", "herm_indef_posdiag", "herm_generic", "herm_near_singular_leading_block", "real_symmetric", "hollow", "herm_hollow", "near_tie_pivot", "lower_tri_interchanges", "lower_banded_interchanges"):
+    elif cls in ("herm_gram", "herm_indef_posdiag", "herm_generic", "herm_near_singular_leading_block", "real_symmetric", "hollow", "herm_hollow", "near_tie_pivot", "lower_tri_interchanges", "lower_banded_interchanges", "column_just_above_zero_threshold"):
         # square HERMITIAN inputs (Gram matrices, indefinite with a positive diagonal, generic, a leading 2x2 block that is nearly singular, real
         # symmetric): symmetric structure does not excuse an elimination from its row search - the largest entry of a column need not be on
         # the diagonal, and |multiplier| <= 1 / P A = L U must hold like for any other matrix
@@ -336,6 +339,12 @@ def _random(spec, ctx, R):
                 c = c * (np.subtract.outer(np.arange(n), np.arange(n)) <= 2)[..., None]
             c[np.arange(n), np.arange(n)] *= 0.3
             A = refq.qa(c)
+        elif cls == "column_just_above_zero_threshold":
+            # one column scaled into the decade just above the routine's absolute zero-pivot threshold (1e-15): still data - the row search must
+            # pick the largest entry, multipliers stay <= 1 (below the threshold the routine refuses loudly, which is not judged here)
+            A = refq.randq(rng, n, n)
+            j_ = int(rng.integers(0, n))
+            A[:, j_] = A[:, j_] * float(rng.choice([1.5e-15, 2e-15, 3e-15, 5e-15]))
         elif cls == "near_tie_pivot":
             # NEAR tie in the row search (not a tie): the entry on the diagonal is smaller than the column maximum by a relative 1e-5 .. 1e-12,
             # at step 0 (first column) and, through a decoupled leading entry, at step 1: the interchange must still happen (|multiplier| <= 1)
@@ -366,7 +375,7 @@ def _random(spec, ctx, R):
     else:
         raise ValueError(cls)
     s = embed.svals(A)
-    if len(s) and s[-1] < 1e-8 * s[0]:
+    if len(s) and s[-1] < 1e-8 * s[0] and cls != "column_just_above_zero_threshold":      # (that class is ill-conditioned by construction, full rank)
         ctx.skip("PA_eq_LU", "near-singular random draw")
         return
     ctx.distinct(A)
